@@ -16,6 +16,11 @@ CLAIMED = {
             'Exact regime (integer-valued samples, exactly representable sums); datasets sampled by a seeded driver, histories exhaustive '
             'up to the bound; LUT builder memoised per class list; inexact regime compared with an error envelope outside TLC.',
             '6/C01'),
+    'C15': ('TLA+ definitions of population count, bit extraction, grouping along an axis and NaN-ignoring reductions by index arithmetic (Models.tla); TLC enumerates every uint8/uint16 value and every small '
+            'float array (ModelsEnum.tla); all states replayed on HammingWeight / Monobit / Value and the five discriminants',
+            'Exhaustive over all 65 536 16-bit words (two formulations of the population count agree on each; every bit); uint32/uint64 per byte lane exhaustive over three backgrounds plus random; '
+            'HammingWeight(nb_words) over shapes <= 3x3x4, every axis in both spellings, k = 1..3; every 2x2 (2x3) array over {-2..2, NaN} for every discriminant and axis.',
+            'NaN sentinel inside the specification; Monobit masks must be representable in the data dtype; discriminants on >= 2-D arrays.', '6/C15'),
     'C16': ('TLA+ mechanism model of update() step order (DistinguisherK.tla: repaired order verified, pinned order refuted) + '
             'history machine with rejected calls (Distinguisher.tla) model-checked by TLC; histories replayed on the real objects; '
             'recorded executions with injected faults validated by TLC',
